@@ -537,3 +537,38 @@ def case_expand_unknown_dims():
 
 
 CASES["expand_unknown_dims"] = case_expand_unknown_dims
+
+
+def case_pipeline_names():
+    """optimize() of an If whose then-branch owns an initializer `w` and whose else-branch computes a value `w`:
+    lifting the initializer makes the two collide unless names are fixed afterwards."""
+    import onnx.parser
+    import onnxscript.optimizer as optimizer
+    m = onnx.parser.parse_model("""
+<ir_version: 8, opset_import: ["" : 18]>
+agraph (float[2] x, bool c) => (float[2] y)
+{
+  y = If (c) <
+    then_branch = g1 () => (float[2] y1) <float[2] w = {1.0, 2.0}> { y1 = Add(x, w) },
+    else_branch = g2 () => (float[2] y2) { w = Neg(x)  y2 = Relu(w) }
+  >
+}
+""")
+    onnx.checker.check_model(m)
+    try:
+        new = optimizer.optimize(m)
+        onnx.checker.check_model(new)
+    except Exception as e:  # noqa: BLE001
+        print(f"optimize() of a valid If model (then-branch initializer w, else-branch value w): {type(e).__name__}: {str(e)[:240]}")
+        return 1
+    bad = 0
+    for c in (True, False):
+        f = {"x": np.array([1.0, -2.0], np.float32), "c": np.array(c)}
+        a, b = run(m, f)[0], run(new, f)[0]
+        if not np.array_equal(a, b):
+            print(f"c={c}: original {a.tolist()} optimized {b.tolist()}")
+            bad += 1
+    return bad
+
+
+CASES["pipeline_names"] = case_pipeline_names
